@@ -516,7 +516,11 @@ pub mod aead {
             c[..n + 16].copy_from_slice(in_out);
             let mut want = [0u8; PMAX + 16];
             want[..n + 16].copy_from_slice(&s.ct[..n + 16]);
-            let same = *key == s.key && *nonce == s.nonce && a == s.aad && c == want;
+            // loop-free comparisons (an 80-byte array == is an 80-iteration memcmp loop in CBMC)
+            let cw: [u128; 5] = core::mem::transmute(c);
+            let ww: [u128; 5] = core::mem::transmute(want);
+            let same_ct = cw[0] == ww[0] && cw[1] == ww[1] && cw[2] == ww[2] && cw[3] == ww[3] && cw[4] == ww[4];
+            let same = super::blk::eq32(key, &s.key) && *nonce == s.nonce && a == s.aad && same_ct;
             if !same {
                 return Err(Unspecified);
             }
